@@ -119,10 +119,10 @@ theorem fix_finding_part_dropped (P : Str → Option (List Event)) (hP : Rejects
 def w2 : Str := [60, 63, 120, 109, 108, 32, 118, 101, 114, 115, 105, 111, 110, 61, 39, 49, 46, 48, 39, 32, 101, 110, 99, 111, 100, 105, 110, 103, 61, 39, 85, 84, 70, 45, 56, 39, 63, 62, 10, 60, 111, 58, 100, 111, 99, 117, 109, 101, 110, 116, 45, 99, 111, 110, 116, 101, 110, 116, 10, 120, 109, 108, 110, 115, 58, 111, 61, 34, 117, 114, 110, 58, 111, 97, 115, 105, 115, 58, 110, 97, 109, 101, 115, 58, 116, 99, 58, 111, 112, 101, 110, 100, 111, 99, 117, 109, 101, 110, 116, 58, 120, 109, 108, 110, 115, 58, 111, 102, 102, 105, 99, 101, 58, 49, 46, 48, 34, 62, 60, 111, 58, 98, 111, 100, 121, 62, 60, 117, 58, 112, 10, 120, 109, 108, 110, 115, 58, 117, 61, 34, 117, 34, 62, 115, 97, 121, 32, 120, 109, 108, 110, 115, 58, 120, 60, 47, 117, 58, 112, 62, 60, 47, 111, 58, 98, 111, 100, 121, 62, 60, 47, 111, 58, 100, 111, 99, 117, 109, 101, 110, 116, 45, 99, 111, 110, 116, 101, 110, 116, 62]
 
 /-- **known finding KF-C05-2, proved**: in `w2` the first `" xmlns:"` lies in character data; `__fixXmlPart` leaves
-    all markup as it is and makes the character data 553 characters longer (nine declarations inside the sentence). -/
+    all markup as it is and makes the character data 538 characters longer (nine declarations inside the sentence). -/
 theorem fix_finding_splice_in_text :
     (splitMarkup false (fixXmlPart w2)).1 = (splitMarkup false w2).1 ∧
-    (splitMarkup false w2).2.length = 12 ∧ (splitMarkup false (fixXmlPart w2)).2.length = 12 + 553 := by
+    (splitMarkup false w2).2.length = 12 ∧ (splitMarkup false (fixXmlPart w2)).2.length = 12 + 538 := by
   decide +kernel
 
 /-- a part that satisfies `fix_identity`: all nine prefixes declared after a blank -/
@@ -130,5 +130,213 @@ def w3 : Str := [60, 63, 120, 109, 108, 32, 118, 101, 114, 115, 105, 111, 110, 6
 
 /-- non-vacuity of `fix_identity` -/
 example : DeclaresWithSpace w3 := by decide +kernel
+
+/-! ### sections over SAX event streams -/
+
+/-- **C05 (sections_preserved, partial)**: a section of a foreign part, as expat delivers it — `kids` canonical
+    (character data merged, no empty text) — is loaded EXACTLY: element for element, attribute for attribute,
+    character for character, white-space-only text included; and what `save` then writes for it is parsed back to the
+    same forest (`canonTF [] kids = kids`).
+    Hypotheses, each a decidable property of the source: the parser is idle and the section still empty (first
+    occurrence); the section element is routed (`route`: office:font-face-decls only in styles.xml —
+    `finding_content_fonts_skipped`); `kids` has at least one element child (else its text is dropped), contains no
+    nested section element (`finding_nested_section`), registers only fresh style names (no rename: C11), and no
+    string of it holds a code point the writer filters (`huF kids = kids`: KF-C02-1).
+    Not in the model: attribute converters (values must be fixed points: C15), expat itself. -/
+theorem sections_preserved_partial (st : St) (q : QName) (a : List (QName × Str)) (kids : Forest) (s : Sec)
+    (hi : Idle st) (hf : st.fix = []) (hempty : st.doc.get s = .nil) (hr : route st.stylesPart q = some s)
+    (hnt : noTrigF kids = true) (hfr : fresh st.names (regF (some (qOfSec s)) kids) = true)
+    (hc : canonB kids = true) (he : hasElemF kids = true) (hh : huF kids = kids) :
+    ∃ st', run st (evN (.elem q a kids)) = some st' ∧ st'.doc.get s = kids ∧ canonTF [] (st'.doc.get s) = kids ∧
+      Idle st' ∧ st'.fix = [] := by
+  refine ⟨afterSection st s kids, run_section st q a kids s hi hf hr hnt hfr, ?_, ?_, afterSection_idle st s kids hi,
+    by simpa [afterSection] using hf⟩
+  · simp [afterSection, hempty, secContent, he, mergeTF_canon_id kids hc]
+  · simp only [afterSection, Doc.get_app_same, hempty, appF_nil_left, secContent, he, if_true, mergeTF_canon_id kids hc]
+    rw [canonTF_eq_merge, hh, mergeTF_canon_id kids hc]
+
+/-- the other sections are not touched by it -/
+theorem other_sections_untouched (st : St) (q : QName) (a : List (QName × Str)) (kids : Forest) (s s' : Sec)
+    (hi : Idle st) (hf : st.fix = []) (hr : route st.stylesPart q = some s) (hnt : noTrigF kids = true)
+    (hfr : fresh st.names (regF (some (qOfSec s)) kids) = true) (hne : s' ≠ s) :
+    ∃ st', run st (evN (.elem q a kids)) = some st' ∧ st'.doc.get s' = st.doc.get s' :=
+  ⟨afterSection st s kids, run_section st q a kids s hi hf hr hnt hfr, by simp [afterSection, Doc.get_app_other _ _ _ _ hne]⟩
+
+/-- **known finding KF-C05-9 (section attributes), proved for every state and every section element**: the
+    attributes on office:body, office:styles, office:meta … never reach the document — the handler does not look at
+    them when the tag is a section element. -/
+theorem finding_section_attributes (st : St) (q : QName) (a a' : List (QName × Str)) (h : isTrigger q = true) :
+    stepStart st q a = stepStart st q a' := by
+  unfold stepStart
+  cases hs : secOfTrigger q with
+  | none => simp [isTrigger, hs] at h
+  | some s => simp [hs]
+
+/-- content.xml `<office:font-face-decls><u:f/></office:font-face-decls><office:body><u:a/></office:body>` -/
+def contentWithFonts : Node :=
+  .elem qDocContent [] (.cons (.elem qFontFace [] (.cons (exE 102) .nil)) (.cons (.elem qBody [] (.cons (exE 97) .nil)) .nil))
+
+/-- **known finding KF-C05-3, proved**: a font declared in content.xml is skipped (the same element in styles.xml
+    is kept — `finding_subdocument_fonts`), whatever the document held before. -/
+theorem finding_content_fonts_skipped :
+    route (stylesPartOf sContentXml) qFontFace = none ∧
+    (loadPart (stylesPartOf sContentXml) {} (evN contentWithFonts)).map
+      (fun l => (topNames l.doc.fontFace, topNames l.doc.body)) = some ([], [exQ 97]) := by decide
+
+/-! ### opaque manifest members -/
+
+open OdfModel.Pkg in
+/-- what falls through to the last branch of the dispatch in `load` -/
+def isOpaque (m : Str) : Bool :=
+  !isPicturePath m && !(m == sThumb) && !isXmlPart m && !isRegenerated m && !isObjectFolder m && !(m.take 7 == sObjectSp)
+
+open OdfModel.Pkg in
+theorem loadEntry_opaque (p : Package) (keys : List Str) (s s' : LoadSt) (e : Str × Str) (ho : isOpaque e.1 = true)
+    (h : loadEntry p keys s e = some s') :
+    ∃ c, s'.extras = s.extras ++ [⟨e.1, e.2, c⟩] ∧ (e.1.getLast? ≠ some 47 → c = zread p.members e.1 ∧ c.isSome) := by
+  simp only [isOpaque, Bool.and_eq_true, Bool.not_eq_true'] at ho
+  obtain ⟨⟨⟨⟨⟨h1, h2⟩, h3⟩, h4⟩, h5⟩, h6⟩ := ho
+  unfold loadEntry at h
+  simp only [h1, h2, h3, h4, h5, h6, Bool.false_eq_true, if_false] at h
+  cases hl : e.1.getLast? with
+  | none => simp [hl] at h
+  | some c =>
+    simp only [hl] at h
+    by_cases hc : (c == 47) = true
+    · simp only [hc, if_true, Option.some.injEq] at h
+      refine ⟨none, by rw [← h], ?_⟩
+      intro hne; exfalso; apply hne; simp at hc; rw [hc]
+    · simp only [hc, Bool.false_eq_true, if_false] at h
+      cases hz : zread p.members e.1 with
+      | none => simp [hz] at h
+      | some b =>
+        simp only [hz, Option.some.injEq] at h
+        exact ⟨some b, by rw [← h], fun _ => ⟨rfl, rfl⟩⟩
+
+open OdfModel.Pkg in
+theorem loadEntry_extras_grow (p : Package) (keys : List Str) (s s' : LoadSt) (e : Str × Str)
+    (h : loadEntry p keys s e = some s') : ∃ t, s'.extras = s.extras ++ t := by
+  unfold loadEntry at h
+  simp only at h
+  by_cases h1 : isPicturePath e.1 = true
+  · simp only [h1, if_true] at h
+    cases hz : zread p.members e.1 with
+    | none => simp [hz] at h
+    | some b => simp only [hz, Option.some.injEq] at h; subst h; exact ⟨[], by simp⟩
+  simp only [h1, Bool.false_eq_true, if_false] at h
+  by_cases h2 : (e.1 == sThumb) = true
+  · simp only [h2, if_true] at h
+    cases hz : zread p.members e.1 with
+    | none => simp [hz] at h
+    | some b => simp only [hz, Option.some.injEq] at h; subst h; exact ⟨[], by simp⟩
+  simp only [h2, Bool.false_eq_true, if_false] at h
+  by_cases h3 : isXmlPart e.1 = true
+  · simp only [h3, if_true, Option.some.injEq] at h; subst h; exact ⟨[], by simp⟩
+  simp only [h3, Bool.false_eq_true, if_false] at h
+  by_cases h4 : isRegenerated e.1 = true
+  · simp only [h4, if_true, Option.some.injEq] at h; subst h; exact ⟨[], by simp⟩
+  simp only [h4, Bool.false_eq_true, if_false] at h
+  by_cases h5 : isObjectFolder e.1 = true
+  · simp only [h5, if_true, Option.some.injEq] at h; subst h; exact ⟨[], by simp⟩
+  simp only [h5, Bool.false_eq_true, if_false] at h
+  by_cases h6 : (e.1.take 7 == sObjectSp) = true
+  · simp only [h6, if_true, Option.some.injEq] at h; subst h; exact ⟨[], by simp⟩
+  simp only [h6, Bool.false_eq_true, if_false] at h
+  cases hl : e.1.getLast? with
+  | none => simp [hl] at h
+  | some c =>
+    simp only [hl] at h
+    by_cases hc : (c == 47) = true
+    · simp only [hc, if_true, Option.some.injEq] at h; subst h; exact ⟨_, rfl⟩
+    · simp only [hc, Bool.false_eq_true, if_false] at h
+      cases hz : zread p.members e.1 with
+      | none => simp [hz] at h
+      | some b => simp only [hz, Option.some.injEq] at h; subst h; exact ⟨_, rfl⟩
+
+open OdfModel.Pkg in
+theorem loadLoop_extras_grow (p : Package) (keys : List Str) : ∀ (es : List (Str × Str)) (s s' : LoadSt),
+    loadLoop p keys s es = some s' → ∃ t, s'.extras = s.extras ++ t := by
+  intro es
+  induction es with
+  | nil => intro s s' h; simp only [loadLoop, Option.some.injEq] at h; subst h; exact ⟨[], by simp⟩
+  | cons e es ih =>
+    intro s s' h
+    simp only [loadLoop] at h
+    cases h1 : loadEntry p keys s e with
+    | none => simp [h1] at h
+    | some s1 =>
+      simp only [h1] at h
+      obtain ⟨t1, ht1⟩ := loadEntry_extras_grow p keys s s1 e h1
+      obtain ⟨t2, ht2⟩ := ih s1 s' h
+      exact ⟨t1 ++ t2, by rw [ht2, ht1, List.append_assoc]⟩
+
+open OdfModel.Pkg in
+theorem loadLoop_keeps_opaque (p : Package) (keys : List Str) : ∀ (es : List (Str × Str)) (s s' : LoadSt),
+    loadLoop p keys s es = some s' → ∀ e ∈ es, isOpaque e.1 = true →
+    ∃ c, (⟨e.1, e.2, c⟩ : Extra) ∈ s'.extras ∧ (e.1.getLast? ≠ some 47 → c = zread p.members e.1 ∧ c.isSome) := by
+  intro es
+  induction es with
+  | nil => intro s s' _ e he; cases he
+  | cons e0 es ih =>
+    intro s s' h e he ho
+    simp only [loadLoop] at h
+    cases h1 : loadEntry p keys s e0 with
+    | none => simp [h1] at h
+    | some s1 =>
+      simp only [h1] at h
+      rcases List.mem_cons.mp he with rfl | he'
+      · obtain ⟨c, hc, hz⟩ := loadEntry_opaque p keys s s1 e ho h1
+        obtain ⟨t, ht⟩ := loadLoop_extras_grow p keys es s1 s' h
+        exact ⟨c, by rw [ht, hc]; simp, hz⟩
+      · exact ih s1 s' h e he' ho
+
+open OdfModel.Pkg in
+theorem mem_extrasOut_man (es : List Extra) (x : Extra) (hx : x ∈ es) (hs : x.filename ≠ sDocSig) :
+    (∃ fl, (⟨x.filename, x.mediatype, fl⟩ : ME) ∈ (extrasOut es).man) ∧
+    (∀ b, x.content = some b → (⟨x.filename, .deflated, [], .bytes b⟩ : ZE) ∈ (extrasOut es).zip) := by
+  induction es with
+  | nil => cases hx
+  | cons e es ih =>
+    simp only [extrasOut, Out.man_append, Out.zip_append, List.mem_append]
+    rcases List.mem_cons.mp hx with rfl | hx'
+    · unfold extraOut
+      simp only [hs, if_false]
+      cases hc : x.content with
+      | none => exact ⟨⟨true, Or.inl (by simp)⟩, fun b hb => by cases hb⟩
+      | some b0 => exact ⟨⟨false, Or.inl (by simp)⟩, fun b hb => by cases hb; exact Or.inl (by simp)⟩
+    · obtain ⟨⟨fl, h1⟩, h2⟩ := ih hx'
+      exact ⟨⟨fl, Or.inr h1⟩, fun b hb => Or.inr (h2 b hb)⟩
+
+open OdfModel.Pkg in
+/-- **C05 (extras_carried)**: every manifest entry that `load` does not interpret — not a picture, the thumbnail,
+    one of the four parts, a regenerated entry ("/", "Thumbnails/", mimetype, the manifest), or anything below an
+    "Object " folder — is in the manifest of the re-saved package under the same path with the same media type, and,
+    unless it is a folder entry, as a member with the very bytes the source held; META-INF/documentsignatures.xml
+    excepted (a rewrite invalidates signatures).  For every package that loads at all. -/
+theorem extras_carried (p : Package) (d : Pkg.Doc) (hl : load p = some d) (e : Str × Str)
+    (he : e ∈ manifestlist p.manifest) (ho : isOpaque e.1 = true) (hs : e.1 ≠ sDocSig) :
+    (∃ fl, (⟨e.1, e.2, fl⟩ : ME) ∈ (save d).man) ∧
+    (e.1.getLast? ≠ some 47 → ∃ b, zread p.members e.1 = some b ∧
+      (⟨e.1, .deflated, [], .bytes b⟩ : ZE) ∈ (save d).zip) := by
+  unfold load at hl
+  simp only at hl
+  cases hloop : loadLoop p ((manifestlist p.manifest).map (·.1)) ⟨[], none, [], []⟩ (manifestlist p.manifest) with
+  | none => simp [hloop] at hl
+  | some s =>
+    simp only [hloop, Option.some.injEq] at hl
+    subst hl
+    obtain ⟨c, hc, hz⟩ := loadLoop_keeps_opaque p _ _ _ s hloop e he ho
+    obtain ⟨⟨fl, hm⟩, hzip⟩ := mem_extrasOut_man s.extras ⟨e.1, e.2, c⟩ hc hs
+    refine ⟨⟨fl, ?_⟩, ?_⟩
+    · simp only [save, Out.man_append, List.mem_append]
+      exact Or.inl (Or.inr hm)
+    · intro hne
+      obtain ⟨hc1, hc2⟩ := hz hne
+      cases hcb : c with
+      | none => rw [hcb] at hc2; cases hc2
+      | some b =>
+        refine ⟨b, by rw [← hc1, hcb], ?_⟩
+        simp only [save, Out.zip_append, List.mem_append]
+        exact Or.inl (Or.inr (hzip b (by simp [hcb])))
 
 end OdfModel.Props.C05
